@@ -1,16 +1,22 @@
 #!/bin/bash
-# usage: tools/with_mutant.sh <patch.diff> <check id>...   applies the patch to /repo, runs the quick checks, reverts.
-P=$1; shift
-cd /repo || exit 2
+# usage: tools/with_mutant.sh <patch.diff> <check id>...
+# Applies the patch to a scratch worktree of /repo's HEAD (never /repo itself), runs the checks against it
+# (VERIF_REPO), with evidence and replays redirected to a scratch dir, then removes everything.
+P=$(readlink -f "$1"); shift
+WT=$(mktemp -d /tmp/mutrepo.XXXXXX); OUT=$(mktemp -d /tmp/mutout.XXXXXX)
+git -C /repo worktree add -q --detach "$WT" HEAD || exit 2
+cd "$WT"
 if ! git apply "$P" 2>/dev/null; then
   if ! git apply -3 "$P" 2>/dev/null; then
-    patch -p1 --fuzz=3 -s < "$P" || { echo "PATCH-FAILED $P"; git checkout -q -- .; git clean -fdq; exit 3; }
+    patch -p1 --fuzz=3 -s < "$P" || { echo "PATCH-FAILED $P"; cd /; git -C /repo worktree remove --force "$WT"; rm -rf "$OUT"; exit 3; }
   fi
 fi
 cd /verif
 for id in "$@"; do
-  out=$(./check "$id" ${TIER:-quick} 2>&1); rc=$?
-  echo "$id rc=$rc $(echo "$out" | grep -c '^VIOLATION') violations; $(echo "$out" | grep 'BROKEN' | head -1 | cut -c1-300)"
-  echo "$out" | grep '^VIOLATION' | head -3
+  out=$(VERIF_REPO="$WT" VERIF_OUT="$OUT" ./check "$id" ${TIER:-quick} 2>&1); rc=$?
+  echo "$id rc=$rc violations=$(echo "$out" | grep -c '^VIOLATION') $(echo "$out" | grep 'BROKEN' | head -1 | cut -c1-300)"
+  for r in $(echo "$out" | grep '^VIOLATION' | head -2 | sed 's/.*replay=//'); do python3 -c "
+import json,sys
+c=json.load(open('$r/case.json')); print('   ', c['kind'], c['case']['key'])"; done
 done
-cd /repo && git reset -q --hard HEAD && git clean -fdq
+cd /; git -C /repo worktree remove --force "$WT"; rm -rf "$OUT"
